@@ -1,6 +1,7 @@
 import IxpeVerif.Model.EventList
 import IxpeVerif.Props.C05
 import IxpeVerif.Lemmas.ImpTie
+import IxpeVerif.Gen.Skel
 /-!
 # C04 — simulated event lists are temporally well-formed (core Lean only)
 
@@ -196,5 +197,58 @@ theorem gen_dead_time_sublist (rows : List Row) (dead : Int) :
   rw [gen_apply_dead_time_eq_model]; exact veto_sublist dead rows
 
 example : Gen.Imp.apply_dead_time [0, 3, 5, 11, 12, 30] 5 = [true, false, true, true, false, true] ∧ Gen.Imp.apply_dead_time [] 5 = [] := by decide
+
+/-! ### T-tie of the orchestration: `_finalize` regenerated as a composition of the methods it calls (`Gen/Skel.lean`, translator/skeltrans.py)
+
+The state of the model: the rows, the LIVETIME column once filled, the first trigger identifier once assigned.  Each method of the event list is
+modelled by the function below that carries its name; the generated skeleton composes them in the order, under the guards and with the arguments
+of the source. -/
+
+structure St where
+  rows : List Row
+  lt : List Int := []
+  trg0 : Nat := 0
+
+/-- the models of the methods `_finalize` calls (`apply_charging` does not touch the columns the property speaks of; the GTI list is handed over as
+the observation start and the interval starts, which is what `fill_livetime` reads from it) -/
+def modelOps : Gen.Skel.FinalizeOps St (Int × List Int) where
+  num_events st := (st.rows.length : Int)
+  apply_fiducial_area st := { st with rows := st.rows.filter (·.inFid) }
+  sort st := { st with rows := st.rows.mergeSort leT }
+  apply_charging st := st
+  apply_dead_time st dead := { st with rows := veto dead st.rows }
+  fill_livetime st g dead := { st with lt := Livetime.livetimeColumn g.1 g.2 (st.rows.map (·.time)) dead }
+  fill_trigger_id st := { st with trg0 := 1 }
+
+/-- the table the state stands for -/
+def St.table (st : St) : List Out := zip3 st.rows st.lt st.trg0
+
+/-- **the generated `_finalize` composes the models of its steps into the model of the whole**, for every event list, dead time and GTI list:
+an empty list is left alone; otherwise fiducial cut, sort, veto iff the dead time is positive, livetime with the GTI list and the dead time of the
+call, trigger identifiers — in this order -/
+theorem gen_finalize_eq_model (s0 dead : Int) (starts : List Int) (rows : List Row) :
+    (Gen.Skel.finalize modelOps false dead (s0, starts) { rows := rows }).table = finalize s0 dead starts rows := by
+  unfold Gen.Skel.finalize finalize finalizeRows St.table
+  cases rows with
+  | nil => simp [modelOps, zip3, veto]
+  | cons r rest =>
+    have hne : ¬ (((r :: rest).length : Int) = 0) := by simp; omega
+    simp only [modelOps, hne, decide_false, Bool.false_eq_true, if_false]
+    by_cases hd : dead > 0
+    · simp [hd]
+    · simp [hd]
+
+/-- the headline statements on the generated orchestration: sorted, spaced by the dead time, inside the fiducial area -/
+theorem gen_finalize_rows (s0 dead : Int) (starts : List Int) (rows : List Row) (hne : rows ≠ []) :
+    (Gen.Skel.finalize modelOps false dead (s0, starts) { rows := rows }).rows = finalizeRows dead rows := by
+  unfold Gen.Skel.finalize finalizeRows
+  cases rows with
+  | nil => exact absurd rfl hne
+  | cons r rest =>
+    have h0 : ¬ (((r :: rest).length : Int) = 0) := by simp; omega
+    simp only [modelOps, h0, decide_false, Bool.false_eq_true, if_false]
+    by_cases hd : dead > 0
+    · simp [hd]
+    · simp [hd]
 
 end EvL
